@@ -254,3 +254,19 @@ V("twin: Kronecker general case cached under the same key", "C05", BASE, "      
 V("NotReducible raised only when no member is reducible", "C14", CURVE, "if self.dim > 2 and not np.all(is_multiple(", "if self.dim > 2 and not np.any(is_multiple(", "E7.q", "QuadricTensor.components")
 V("NotConcurrent raised only when no quadruple is concurrent", "C11", OPS, "        if not np.all(is_concurrent(a, b, c, d)):", "        if not np.any(is_concurrent(a, b, c, d)):", "E7.q", "crossratio")
 V("normalisation fast path with any()", "C04", POINT, "        if np.all(isinf | (z == 1)):\n            return array", "        if np.any(isinf | (z == 1)):\n            return array", "E6.K6", "_normalize_array")
+
+# ------------------------------------------------------------------------------------------------ rules added after seeding round 2
+V("polygon __apply__ recomputes the plane from the untransformed vertices", "C06", SHAPES, "            result._plane = join(*result.vertices[: result.dim])", "            result._plane = join(*self.vertices[: result.dim])", "E6.K4", "Polygon")
+V("_with_array copies absolute index positions", "C19", BASE,
+  "        n = self.free_indices\n        covariant = [i - n for i in self._covariant_indices]\n        return Tensor(array, covariant=covariant, tensor_rank=self.rank - n, copy=False)",
+  "        result = Tensor(array, copy=False)\n        result._covariant_indices = set(self._covariant_indices)\n        result._contravariant_indices = set(self._contravariant_indices)\n        return result", "E4.V1b", "Tensor._with_array")
+V("twin: transpose keeps assigning both index sets explicitly", "C19", BASE, "        result._covariant_indices = set(covariant_indices)", "        result._covariant_indices = frozenset(covariant_indices) | set()", "silent")
+V("affine_transform takes the dtype from the matrix only", "C08", TRANS, "        dtype = np.promote_types(dtype, matrix.dtype)", "        dtype = matrix.dtype", "E6.K7", "affine_transform")
+V("D20 regression: scalar offset ignored for the dtype", "C08", TRANS, "    else:\n        dtype = np.result_type(offset)\n", "", "E6.K7", "affine_transform")
+V("twin: dtype computed in one expression", "C08", TRANS, "    result = np.eye(n, dtype=dtype)\n", "    result = np.eye(n, dtype=np.promote_types(dtype, np.result_type(offset)))\n", "silent")
+V("Sphere matrix dtype ignores the radius", "C08", CURVE, "m = np.eye(center.shape[0], dtype=np.promote_types(c.dtype, type(radius)))", "m = np.eye(center.shape[0], dtype=c.dtype)", "E6.K7", "Sphere.__init__")
+# E5: inhomogeneous combinations of raw vertices reaching a point constructor
+V("center from raw vertex coordinates", "C17", SHAPES, "        return Point(*np.mean(self.normalized_array[:, :-1], axis=0))", "        return Point(*np.mean(self.array[:, :-1], axis=0))", "E5.affine", "RegularPolygon.center")
+V("centroid from raw vertex coordinates", "C17", SHAPES, "        points = self.normalized_array\n        centroids", "        points = self.array\n        centroids", "E5.affine", "Polygon.centroid")
+V("point scaling on raw coordinates", "C03", POINT, "        result = self.normalized_array[..., :-1] * other\n", "        result = self.array[..., :-1] * other\n", "E5.object", "PointLikeTensor.__mul__")
+V("Sphere built from the raw centre", "C03", CURVE, "        c = -center.normalized_array\n        m = np.eye(center.shape[0]", "        c = -center.array\n        m = np.eye(center.shape[0]", "E5.object", "Sphere.__init__")
